@@ -116,6 +116,11 @@ def run(ctx):
         else:
             pt = [F(rng.randint(-20, 20), 4) for _ in range(dim)]
         run_case(ctx, ser(dict(kind="proj", label=label, U=U, P=P, W=None, pt=pt)))
+    for i in range(budget(ctx, 20, 200)):
+        # single-span curves that clean() could simplify: the projection must leave the caller's object alone
+        cu, kind = reducible_bezier(rng, 2)
+        pt = [F(rng.randint(-24, 24), 4) for _ in range(2)]
+        run_case(ctx, ser(dict(kind="proj", label="reducible-" + kind, U=cu["U"], P=cu["P"], W=cu["W"], pt=pt)))
     for i in range(budget(ctx, 80, 900)):
         p = rng.choice([2, 2, 3])
         U = rand_kv(rng, p=p, nintmax=2, maxmult=1, interval=(F(0), F(1)))
